@@ -45,34 +45,48 @@ def _copy_pkg(src_root, dst_root):
 
 
 # ------------------------------------------------------------------------------------------------ pinned regression
+def _export_tree(repo, commit, tmp):
+    os.makedirs(os.path.join(tmp, "eaopack"))
+    ls = subprocess.run(["git", "-C", repo, "ls-tree", "--name-only", commit, "eaopack/"], capture_output=True, text=True)
+    if ls.returncode != 0:
+        return False
+    for f in ls.stdout.split():
+        blob = subprocess.run(["git", "-C", repo, "show", "%s:%s" % (commit, f)], capture_output=True)
+        with open(os.path.join(tmp, f), "wb") as fh:
+            fh.write(blob.stdout)
+    return True
+
+
 def pinned_regression(prop, repo):
+    """Every `fixed` finding must be reported again on the tree it was found on: the pinned commit, or - for a defect that an
+    earlier defect masked there - the commit named in its `regress_at` field (the parent of its fix)."""
+    from .rules import load_all
+    load_all()      # the rule -> property table is filled by the rule modules
     res = {"commit": PINNED_COMMIT, "expected": 0, "reported": 0, "missing": []}
     fixed = [k for k in load_known() if k.get("status") == "fixed" and prop in tables.serves(k.get("rule", ""))]
     res["expected"] = len(fixed)
     if not fixed:
         return res
-    tmp = tempfile.mkdtemp(prefix="eaocheck_pinned_")
-    try:
-        os.makedirs(os.path.join(tmp, "eaopack"))
-        ls = subprocess.run(["git", "-C", repo, "ls-tree", "--name-only", PINNED_COMMIT, "eaopack/"], capture_output=True, text=True)
-        if ls.returncode != 0:
-            res["skipped"] = "pinned commit not reachable in %s" % repo
-            return res
-        for f in ls.stdout.split():
-            blob = subprocess.run(["git", "-C", repo, "show", "%s:%s" % (PINNED_COMMIT, f)], capture_output=True)
-            with open(os.path.join(tmp, f), "wb") as fh:
-                fh.write(blob.stdout)
-        out, new, listed = _run(prop, tmp)
-        keys = {o.key for o in out.obs if o.verdict == VIOLATED}
-        for k in fixed:
-            if k["key"] in keys:
-                res["reported"] += 1
-            else:
-                res["missing"].append(k["key"])
-        if out.error:
-            res["analysis_error"] = out.error
-    finally:
-        shutil.rmtree(tmp, ignore_errors=True)
+    by_commit = {}
+    for k in fixed:
+        by_commit.setdefault(k.get("regress_at", PINNED_COMMIT), []).append(k)
+    for commit, ks in sorted(by_commit.items()):
+        tmp = tempfile.mkdtemp(prefix="eaocheck_pinned_")
+        try:
+            if not _export_tree(repo, commit, tmp):
+                res["skipped"] = "commit %s not reachable in %s" % (commit, repo)
+                continue
+            out, new, listed = _run(prop, tmp)
+            keys = {o.key for o in out.obs if o.verdict == VIOLATED}
+            for k in ks:
+                if k["key"] in keys:
+                    res["reported"] += 1
+                else:
+                    res["missing"].append(k["key"])
+            if out.error:
+                res["analysis_error"] = out.error
+        finally:
+            shutil.rmtree(tmp, ignore_errors=True)
     return res
 
 
